@@ -1912,3 +1912,31 @@ M("C09-has-include-quote-form-taken-as-angle", "C09", F_PP,
   expect="R09.11|CPPPreprocessor::expand_has_include_function|find_include|angle-argument")
 M("C09-benign-has-include-flag-computed-positively", "C09", F_PP, _HI,
   "    if (_noangles) {\n      angle_quotes = false;\n    } else {\n      angle_quotes = true;\n    }\n", benign=True)
+
+# ---- R10.10 (S8-C10: defaulted virtual members no longer collected)
+_VF = "      if ((inst->_storage_class & CPPInstance::SC_virtual) != 0 &&\n          (inst->_storage_class & CPPInstance::SC_deleted) == 0) {\n"
+M("C10-defaulted-virtuals-not-collected", "C10", F_ST, _VF, _VF.replace("SC_deleted", "SC_defaulted"),
+  expect="R10.10|get_virtual_funcs|push_back(inst)|exactly-the-declared-virtuals")
+M("C10-only-pure-virtuals-collected", "C10", F_ST, _VF, _VF.replace("SC_virtual", "SC_pure_virtual"),
+  expect="R10.10|get_virtual_funcs|push_back(inst)|exactly-the-declared-virtuals")
+M("C10-benign-virtual-test-spelled-differently", "C10", F_ST, _VF,
+  "      if (!(inst->_storage_class & CPPInstance::SC_deleted) &&\n          (inst->_storage_class & CPPInstance::SC_virtual)) {\n", benign=True)
+
+# ---- R05.11 (S8-C05: overrides folded into a virtual base)
+F_IB = "src/interrogate/interrogateBuilder.cxx"
+_FOLD = """      struct_type->_derivation.size() == 1 &&
+      struct_type->_derivation[0]._vis <= V_public &&
+      !struct_type->_derivation[0]._is_virtual) {
+"""
+M("C05-overrides-folded-into-virtual-base", "C05", F_IB, _FOLD,
+  "      struct_type->_derivation.size() == 1 &&\n      struct_type->_derivation[0]._vis <= V_public) {\n",
+  expect="R05.11|define_method|")
+M("C05-overrides-folded-into-private-base", "C05", F_IB, _FOLD,
+  "      struct_type->_derivation.size() == 1 &&\n      !struct_type->_derivation[0]._is_virtual) {\n",
+  expect="R05.11|define_method|")
+M("C05-overrides-folded-under-multiple-inheritance", "C05", F_IB, _FOLD,
+  "      !struct_type->_derivation.empty() &&\n      struct_type->_derivation[0]._vis <= V_public &&\n      !struct_type->_derivation[0]._is_virtual) {\n",
+  expect="R05.11|define_method|")
+M("C05-benign-fold-condition-reordered", "C05", F_IB, _FOLD,
+  "      struct_type->_derivation.size() == 1 &&\n      !struct_type->_derivation[0]._is_virtual &&\n      struct_type->_derivation[0]._vis <= V_public) {\n",
+  benign=True)
